@@ -77,6 +77,35 @@ fn fault_space(ctx: &mut Ctx, s: &Sample, p: &mut Prng, other: &Sample, small_s:
         sig[bit / 8] ^= 0x80 >> (bit % 8);
         probe(ctx, s, &s.lpk, &s.pk, s.id, &s.id_str, &s.msg, &sig, if bit < 256 { "bitflip_r" } else { "bitflip_s" }, false);
     }
+    // near misses made WITH the private key: r' differs from the genuine R in one bit (or in one whole byte / the upper
+    // half of one limb) and s' = (k - r' d)/(1 + d), so that [s']G + [r'+s']P is still [k]G and the verifier recomputes
+    // the genuine R: the only thing wrong is R != r'. A comparison that looks at part of the words accepts these.
+    if let Some(d) = &s.d {
+        let r0 = r2::from_b(&s.sig[..32]);
+        let k = r2::recover_nonce(d, &s.sig);
+        let inv = (BigUint::one() + d).modinv(&c.n);
+        if let Some(inv) = inv {
+            let mut masks: Vec<BigUint> = (0..256u32).map(|b| BigUint::one() << b).collect();
+            for limb in 0..4u32 {
+                masks.push(BigUint::from(0xffff_ffff_0000_0000u64) << (64 * limb));
+                masks.push(BigUint::from(0x0000_0000_ffff_ffffu64) << (64 * limb));
+                masks.push(BigUint::from(0xff00_0000_0000_0000u64) << (64 * limb));
+            }
+            for m in masks {
+                let r1 = &r0 ^ &m;
+                if r1.is_zero() || r1 >= c.n {
+                    continue;
+                }
+                let s1 = (&inv * ((&k + &c.n * &c.n - &r1 * d) % &c.n)) % &c.n;
+                if s1.is_zero() || ((&r1 + &s1) % &c.n).is_zero() {
+                    continue;
+                }
+                let mut sig = r2::b32(&r1).to_vec();
+                sig.extend_from_slice(&r2::b32(&s1));
+                probe(ctx, s, &s.lpk, &s.pk, s.id, &s.id_str, &s.msg, &sig, "near_miss_r_consistent_s", true);
+            }
+        }
+    }
     // component substitutions
     let r = r2::from_b(&s.sig[..32]);
     let sv = r2::from_b(&s.sig[32..]);
@@ -183,7 +212,7 @@ pub fn run(ctx: &mut Ctx) {
     for (n, ok) in r2::selftest() {
         ctx.selftest(&n, ok);
     }
-    ctx.require(&["valid_accepted", "bitflip_r", "bitflip_s", "r=0", "s=0", "r=n", "s=n", "s=n+1", "r=2^256-1", "s=2^256-1", "s=n-r", "sG+tP=infinity", "swapped_r_s", "s+n", "s_plus_n_alias", "msg_extended", "msg_bitflip", "id_changed", "key_changed", "len<64", "len>64", "random_pair", "openssl_made", "digest:t=0_equation_satisfied", "digest:valid", "digest:bitflip"]);
+    ctx.require(&["valid_accepted", "bitflip_r", "bitflip_s", "r=0", "s=0", "r=n", "s=n", "s=n+1", "r=2^256-1", "s=2^256-1", "s=n-r", "sG+tP=infinity", "swapped_r_s", "s+n", "s_plus_n_alias", "msg_extended", "msg_bitflip", "id_changed", "key_changed", "len<64", "len>64", "random_pair", "openssl_made", "digest:t=0_equation_satisfied", "digest:valid", "digest:bitflip", "near_miss_r_consistent_s"]);
     let c = r2::curve();
     // --- digest level (hook `verif_verify_digest`): clauses no message can be made to reach. (a) t = r + s = 0 mod n with
     // e chosen so that the remaining equation holds (a verifier without the t check accepts); (b) valid and tampered
